@@ -29,9 +29,23 @@ WriteFor(b, old) == IF b = None THEN old ELSE IF b = 0 THEN "no" ELSE IF b \in {
 US(c, b, f) == LET nb == IF b # None THEN b ELSE c.basic
                    nf == IF f # None THEN f ELSE c.freq
                IN [c EXCEPT !.basic = nb, !.freq = nf, !.write = WriteFor(nb, c.write)]
+\* ---- the positional integer style: RPTRST i1 i2 ... / and RPTSCHED i1 i2 ... /  (fewer than 26 integers)
+RstIntNames == <<"BASIC", "FLOWS", "FIP", "POT", "PBPD", "FREQ", "PRES", "VISC", "DEN">>
+SchedIntNames == <<"PRES", "SOIL", "SWAT", "SGAS", "RS", "RV", "RESTART", "FIP", "WELLS">>
+\* RPTRST: a zero in the first position means "leave BASIC alone"; every other position is taken as it is, zeros included
+RstIntMn(ints) == [n \in {RstIntNames[i] : i \in {j \in DOMAIN ints : j > 1 \/ ints[j] # 0}} |->
+                      ints[CHOOSE i \in DOMAIN ints : RstIntNames[i] = n]]
+SchedIntMn(ints) == [n \in {SchedIntNames[i] : i \in DOMAIN ints} |-> ints[CHOOSE i \in DOMAIN ints : SchedIntNames[i] = n]]
+Get(m, n) == IF n \in DOMAIN m THEN m[n] ELSE None
+Norm(o) == CASE o.op = "RPTRSTI" -> LET m == RstIntMn(o.ints) IN
+                                    [op |-> "RPTRST", basic |-> Get(m, "BASIC"), freq |-> Get(m, "FREQ"), mn |-> Without(m, {"BASIC", "FREQ"})]
+             [] o.op = "RPTSCHEDI" -> LET m == SchedIntMn(o.ints) IN
+                                      [op |-> "RPTSCHED", nothing |-> FALSE, restart |-> Get(m, "RESTART"), mn |-> Without(m, {"RESTART"})]
+             [] OTHER -> o
 Cfg0 == [basic |-> None, freq |-> None, write |-> "no", kw |-> Empty, solonly |-> {}]
 \* ---- SOLUTION section
-SolApply(c, o) ==
+SolApply(c, oo) ==
+    LET o == Norm(oo) IN
     IF o.op = "RPTRST"
     THEN LET m == Expand(o.mn) c1 == US(c, o.basic, o.freq)
          IN [c1 EXCEPT !.kw = Over(c.kw, m), !.solonly = c.solonly \ DOMAIN m, !.write = "yes"]
@@ -44,7 +58,8 @@ SolAll(c, ops) == IF ops = <<>> THEN c ELSE SolAll(SolApply(c, Head(ops)), Tail(
 \* RSTConfig::first: what the SCHEDULE section starts from
 First(c) == [basic |-> c.basic, freq |-> c.freq, write |-> WriteFor(c.basic, "no"), kw |-> Without(c.kw, c.solonly), solonly |-> {}]
 \* ---- SCHEDULE section keywords
-Apply(c, o) ==
+Apply(c, oo) ==
+    LET o == Norm(oo) IN
     CASE o.op = "RPTRST" -> [US(c, o.basic, o.freq) EXCEPT !.kw = Over(c.kw, Expand(o.mn))]
       [] o.op = "RPTSCHED" ->
             LET c1 == IF o.nothing THEN [c EXCEPT !.basic = None, !.kw = Empty] ELSE c      \* (the write decision stays as it was)
@@ -85,6 +100,8 @@ MnChoices == {Empty} \cup {[n \in {a} |-> v] : a \in Names, v \in {1, 2}} \cup {
 RstOps == [op : {"RPTRST"}, basic : {None, 0, 1, 2, 3, 4, 5}, freq : {None, 0, 1, 2, 3}, mn : MnChoices \cup {[n \in {"ALLPROPS"} |-> 2]}]
 SchedOps == [op : {"RPTSCHED"}, nothing : BOOLEAN, restart : {None, 0, 1, 2, 3}, mn : MnChoices]
 SolOps == [op : {"RPTSOL"}, restart : {None, 1, 2}, mn : MnChoices]
+IntOps == [op : {"RPTRSTI"}, ints : {<<2>>, <<0>>, <<3, 0, 1>>, <<0, 1, 1, 0, 0, 2>>, <<4, 0, 0, 0, 0, 0, 1>>}]
+          \cup [op : {"RPTSCHEDI"}, ints : {<<1, 1>>, <<0, 0, 0, 0, 0, 0, 2>>, <<0, 0, 0, 0, 0, 0, 0, 1, 1>>, <<0, 0, 0, 0, 0, 0, 1, 2>>}]
 SaveOp == [op |-> "SAVE"]
 StartMonths == {0, 10, 11}
 Dms == {0, 1, 2, 7, 12, 14, 25}       \* months from one report step to the next (0: later in the same month)
@@ -111,7 +128,7 @@ Advance(dm) ==
     /\ k' = k + 1 /\ nkw' = 0
     /\ hist' = [hist EXCEPT !.blocks = Append(@, [ops |-> hist.cur, dm |-> dm]), !.cur = <<>>]
     /\ UNCHANGED <<cfg, saves>>
-Next == \/ \E o \in RstOps \cup SchedOps \cup {SaveOp} : Kw(o)
+Next == \/ \E o \in RstOps \cup SchedOps \cup IntOps \cup {SaveOp} : Kw(o)
         \/ \E dm \in Dms : Advance(dm)
 Spec == Init /\ [][Next]_vars
 \* what a simulator asks (Schedule::write_rst_file)
